@@ -12,6 +12,7 @@ Decides (shape; not debounce timing over histories):
 from __future__ import annotations
 
 import ast
+import re
 from typing import Any
 
 from .. import cfg as cfgmod
@@ -388,7 +389,7 @@ def keyi_guards(ctx: Ctx, py: PyProgram, rs: RustProgram) -> None:
             n += 1
             gs = g.guards_of(g.node_of(c))
             texts = [py_guard_text(x) for x in gs]
-            cex = _gate_counterexample([(a, pol) for a, pol, _o in gs if isinstance(a, ast.AST)])
+            cex = _gate_counterexample([(a, pol) for a, pol, _o in gs if isinstance(a, ast.AST)], defs=py_defs(m))
             if cex is not None:
                 ctx.violation("C14.3/keyi-gate", key_of(EMU, f"PCE500Emulator.{mname}", unparse(c)),
                               f"KEYI can be asserted with neither the latch set nor (keyboard IRQ enabled and events pending): the guards are satisfied by {cex}", f"{EMU}:{c.lineno}", guards=texts)
@@ -397,7 +398,7 @@ def keyi_guards(ctx: Ctx, py: PyProgram, rs: RustProgram) -> None:
             if isinstance(st, ast.Assign) and any(attr_chain(t) == "self._key_irq_latched" for t in st.targets) and isinstance(st.value, ast.Constant) and st.value.value is True:
                 n += 1
                 gs = g.guards_of(g.node_of(st))
-                cex = _gate_counterexample([(a, pol) for a, pol, _o in gs if isinstance(a, ast.AST)], allow_latch=False)
+                cex = _gate_counterexample([(a, pol) for a, pol, _o in gs if isinstance(a, ast.AST)], allow_latch=False, defs=py_defs(m))
                 if cex is not None:
                     ctx.violation("C14.3/latch-def", key_of(EMU, f"PCE500Emulator.{mname}", "_key_irq_latched = True"), f"the key IRQ latch can be set without (enabled and events): guards satisfied by {cex}", f"{EMU}:{st.lineno}", guards=[py_guard_text(x) for x in gs])
     ctx.instance("C14.3/keyi-gate", "KEYI assertion and latch-set sites gated by latch or (enabled and events), both cores", n, 9)
@@ -424,12 +425,28 @@ def _evalb(e: ast.AST, val: dict) -> bool:
     return val[unparse(e)]
 
 
-def _gate_counterexample(guards: list, allow_latch: bool = True) -> dict | None:
+def _gate_counterexample(guards: list, allow_latch: bool = True, defs: dict | None = None) -> dict | None:
     """Propositional check (truth table over the guard atoms): do the dominating guards imply
-    `latch or (keyboard IRQ enabled and (new events or queued events))`?  Returns a falsifying assignment or None."""
+    `latch or (keyboard IRQ enabled and (new events or queued events))`?  Returns a falsifying assignment or None.
+    An atom's role (latch / enabled / events) is read off the atom with its locals replaced by what they were computed from."""
     atoms: list[str] = []
     for g, _pol in guards:
         _atoms(g, atoms)
+    defs = defs or {}
+
+    def describe(atom: str, depth: int = 0) -> str:
+        out = atom
+        if depth < 3:
+            try:
+                tree = ast.parse(atom, mode="eval")
+            except SyntaxError:
+                return out
+            for nm in {x.id for x in ast.walk(tree) if isinstance(x, ast.Name)}:
+                for v in defs.get(nm, []):
+                    if isinstance(v, ast.AST):
+                        out += " <- " + describe(unparse(v), depth + 1)
+        return out
+    desc = {a: describe(a) for a in atoms}
     if len(atoms) > 14:
         raise AnalysisError("KEYI gate has more than 14 guard atoms")
     import itertools
@@ -437,11 +454,13 @@ def _gate_counterexample(guards: list, allow_latch: bool = True) -> dict | None:
         val = dict(zip(atoms, bits))
         if not all(_evalb(g, val) == pol for g, pol in guards):
             continue
-        latch = allow_latch and any(v for a, v in val.items() if "_key_irq_latched" in a)
-        enabled = any(v for a, v in val.items() if "_kb_irq_enabled" in a)
-        events = any(v for a, v in val.items() if "event" in a or "fifo" in a)
+        def is_events(a: str) -> bool:
+            return any(k in desc[a] for k in ("scan_tick", "fifo", "keyboard.", "event"))
+        latch = allow_latch and any(v for a, v in val.items() if "_key_irq_latched" in desc[a])
+        enabled = any(v for a, v in val.items() if "_kb_irq_enabled" in desc[a])
+        events = any(v for a, v in val.items() if is_events(a))
         if not (latch or (enabled and events)):
-            return {a: v for a, v in val.items() if "_kb_irq_enabled" in a or "event" in a or "fifo" in a or "latch" in a}
+            return {a: v for a, v in val.items() if "_kb_irq_enabled" in desc[a] or is_events(a) or "latch" in desc[a]}
     return None
 
 
@@ -462,9 +481,25 @@ def sibling_skeleton(ctx: Ctx, py: PyProgram, rs: RustProgram) -> None:
     m = py.func(KM_PY, "KeyboardMatrix._update_key_state")
     g = cfgmod.build_py(m, "_update_key_state")
 
+    def expand(t: str, defs: dict, show) -> str:
+        # locals in a guard are replaced by their (single) definition, so that both languages are compared on state fields and
+        # parameters only, whatever the intermediate values are called
+        for _ in range(3):
+            changed = False
+            for nm, vs in defs.items():
+                vs = [v for v in vs if not isinstance(v, (str, tuple))]
+                if len(vs) == 1 and re.search(rf"(?<![\w.]){re.escape(nm)}(?![\w(.])", t):
+                    t = re.sub(rf"(?<![\w.]){re.escape(nm)}(?![\w(.])", "(" + show(vs[0]) + ")", t)
+                    changed = True
+            if not changed:
+                break
+        return t
+
     def norm_guard(t: str) -> str | None:
         t = t.replace(" ", "")
-        for k in ("state.pressed", "strobed", "state.debounced", "press_ticks>=self.press_threshold", "release_ticks>=self.release_threshold"):
+        if "location.column" in t:
+            return ("!" if t.startswith("NOT") else "") + "strobed"
+        for k in ("state.pressed", "state.debounced", "press_ticks>=self.press_threshold", "release_ticks>=self.release_threshold"):
             if k in t:
                 neg = t.startswith("NOT")
                 return ("!" if neg else "") + k
@@ -478,6 +513,7 @@ def sibling_skeleton(ctx: Ctx, py: PyProgram, rs: RustProgram) -> None:
             return tuple(x for x in gs if "auto-repeat" not in x)
         return gs
     pyset = set()
+    pydefs = py_defs(m)
     for st in ast.walk(m):
         tgt = None
         if isinstance(st, ast.Assign) and len(st.targets) == 1 and (attr_chain(st.targets[0]) or "").startswith("state."):
@@ -485,18 +521,19 @@ def sibling_skeleton(ctx: Ctx, py: PyProgram, rs: RustProgram) -> None:
         elif isinstance(st, ast.AugAssign) and (attr_chain(st.target) or "").startswith("state."):
             tgt = unparse(st)
         if tgt:
-            gs = tuple(x for x in (norm_guard(py_guard_text(q)) for q in g.guards_of(g.node_of(st))) if x)
+            gs = tuple(x for x in (norm_guard(expand(py_guard_text(q), pydefs, unparse)) for q in g.guards_of(g.node_of(st))) if x)
             pyset.add((_NORM.get(tgt, tgt), for_field(tgt, gs)))
     fn = rs.fn(KB_RS, "KeyboardMatrix::scan_tick")
     gr = cfgmod.build_rs(fn.node, fn.qual)
     rsset = set()
+    rsdefs = {k: [v for v in vs if isinstance(v, dict)] for k, vs in rs_defs(fn.body).items()}
     for a in walk(fn.body):
         if a.get("k") in ("assign", "opassign") and expr_text(a["l"]).startswith("state."):
             node = gr.node_of(a)
             if node is None:
                 continue
             txt = f"{expr_text(a['l'])} = {expr_text(a['r'])}" if a["k"] == "assign" else f"{expr_text(a['l'])} {a['op']}= {expr_text(a['r'])}"
-            gs = tuple(x for x in (norm_guard(rs_guard_text(q)) for q in gr.guards_of(node)) if x)
+            gs = tuple(x for x in (norm_guard(expand(rs_guard_text(q), rsdefs, expr_text)) for q in gr.guards_of(node)) if x)
             rsset.add((_NORM.get(txt, txt), for_field(txt, gs)))
     only_py = sorted(pyset - rsset)
     only_rs = sorted(rsset - pyset)
@@ -572,11 +609,11 @@ def debounce_arms_repeat(ctx: Ctx, py: PyProgram, rs: RustProgram) -> None:
     cls = py.need_cls(py.module(KM_PY), "KeyboardMatrix")
     for mname, m in cls.methods.items():
         g = None
-        sites = [a for a in ast.walk(m) if isinstance(a, ast.Assign) and any(attr_chain(t) == "state.debounced" for t in a.targets) and not (isinstance(a.value, ast.Constant) and a.value.value is False)]
+        sites = [a for a in ast.walk(m) if isinstance(a, ast.Assign) and any(isinstance(t, ast.Attribute) and t.attr == "debounced" and isinstance(t.value, ast.Name) for t in a.targets) and not (isinstance(a.value, ast.Constant) and a.value.value is False)]
         if not sites or mname in ("load_state",):
             continue
         g = cfgmod.build_py(m, mname)
-        arms = [a for a in ast.walk(m) if isinstance(a, ast.Assign) and any(attr_chain(t) == "state.repeat_ticks" for t in a.targets) and "repeat_delay" in unparse(a.value)]
+        arms = [a for a in ast.walk(m) if isinstance(a, ast.Assign) and any(isinstance(t, ast.Attribute) and t.attr == "repeat_ticks" and isinstance(t.value, ast.Name) for t in a.targets) and "repeat_delay" in unparse(a.value)]
         for st in sites:
             n += 1
             sg = {(unparse(x), pol) for x, pol, _o in g.guards_of(g.node_of(st)) if isinstance(x, ast.AST)}
